@@ -119,6 +119,17 @@ Section Sender.
     | OutOfFuel s => OutOfFuel (c :: s)
     end.
 
+  (* the messages that reached the plugin *)
+  Definition sent_of (o : outcome) : list chunk :=
+    match o with Delivered s _ _ | Failed _ s _ | Panic s | OutOfFuel s => s end.
+
+  (* [xmit]: what the SENDING side says about a message (ttrpc checks the size before anything is
+     written); only its XOversize answer makes the loop recalculate and try again.  [peer]: the plugin's
+     answer to a message that was delivered; None = an error of whatever kind.  plugin.synchronize hands
+     that error to recalcObjsPerSyncMsg too, which returns an error for everything that is not the
+     send-side *ttrpc.OversizedMessageErr (status code other than ResourceExhausted: the error itself;
+     ResourceExhausted without the rejected/maximum lengths: "failed to synchronize plugin with split
+     messages"), so the synchronisation ends - the model does not look at the kind of a peer's error. *)
   Variable xmit : list A -> list B -> bool -> xres.
   Variable peer : PS -> list A -> list B -> bool -> PS * option reply.
   Variable rc : Z -> Z -> Z -> Z -> option (Z * Z).   (* recalcObjsPerSyncMsg *)
@@ -180,7 +191,7 @@ End Sender.
 
 Arguments r_more {U}. Arguments r_update {U}. Arguments Build_reply {U}.
 Arguments Delivered {A B U PS}. Arguments Failed {A B U PS}. Arguments Panic {A B U PS}. Arguments OutOfFuel {A B U PS}.
-Arguments push {A B U PS}. Arguments sync_loop {A B U PS}. Arguments synchronize {A B U PS}.
+Arguments sent_of {A B U PS}. Arguments push {A B U PS}. Arguments sync_loop {A B U PS}. Arguments synchronize {A B U PS}.
 Arguments sync_fuel {A B}. Arguments outcome_ok {A B U PS}. Arguments peer_run {A B U PS}.
 
 (* ------------------------------------------------------------------ *)
